@@ -176,6 +176,13 @@ def run(chk):
         elif shape == "all-constant":
             params[:, 0] = 0.35
             params[:, 1] = -0.15
+        if it == 3 or (it > 3 and it % 4 == 3):
+            # every run: controls that are switched off (exactly 0.0) during the first step and switched on afterwards -- the
+            # propagator is a real matrix there, its derivative is not
+            shape += "+switched-off-first-step"
+            params[0:2, :] = 0.0
+            if rng.random() < 0.5:
+                params[2, 0] = 0.0
         rho0 = oqupy.operators.spin_dm("x+")
         target = oqupy.operators.spin_dm("z-").T
         info = {"envs": len(ops), "parameter_table": shape, "derivatives": "user-supplied" if supplied else "numerical", "purely_coherent": coherent, "parameters": params.tolist()}
